@@ -102,20 +102,50 @@ func writeTs(srv *lrsrv.Srv, tags string, ts int64, msgs ...string) error {
 func waitConfirmed(srv *lrsrv.Srv, tags string, n int) bool {
 	deadline := time.Now().Add(6 * time.Second)
 	for {
-		if pi, err := srv.Parts.GetParitionInfo(tags); err == nil {
-			got := 0
-			for _, c := range pi.Chunks {
-				got += int(c.Records)
-			}
-			if got >= n {
-				return true
-			}
+		if partCount(srv, tags) >= n {
+			return true
 		}
 		if time.Now().After(deadline) {
 			return false
 		}
 		time.Sleep(3 * time.Millisecond)
 	}
+}
+
+// chunkCounts reads the confirmed record count of every chunk of the partition straight from the journal (what
+// partition.Service.GetParitionInfo does, without its detour through the time index: polling that from the harness is not
+// part of this property and would interleave TsIndexer.SyncChunks with every write of the scenario).
+func chunkCounts(srv *lrsrv.Srv, tags string) (ids []uint64, counts []int, err error) {
+	src, _, err := srv.TIndex.GetJournal(tags)
+	if err != nil {
+		return nil, nil, err
+	}
+	defer srv.TIndex.Release(src)
+	jrnl, err := srv.Journals.GetOrCreate(context.Background(), src)
+	if err != nil {
+		return nil, nil, err
+	}
+	cks, err := jrnl.Chunks().Chunks(context.Background())
+	if err != nil {
+		return nil, nil, err
+	}
+	for _, c := range cks {
+		ids = append(ids, uint64(c.Id()))
+		counts = append(counts, int(c.Count()))
+	}
+	return ids, counts, nil
+}
+
+func partCount(srv *lrsrv.Srv, tags string) int {
+	_, cs, err := chunkCounts(srv, tags)
+	if err != nil {
+		return 0
+	}
+	n := 0
+	for _, c := range cs {
+		n += c
+	}
+	return n
 }
 
 type qres struct {
@@ -879,15 +909,7 @@ func sectionPipe(done chan struct{}) {
 		}
 	}()
 	count := func(s *sc) int {
-		pi, err := s.srv.Parts.GetParitionInfo(s.dest)
-		if err != nil {
-			return 0
-		}
-		n := 0
-		for _, c := range pi.Chunks {
-			n += int(c.Records)
-		}
-		return n
+		return partCount(s.srv, s.dest)
 	}
 	got := 0
 	to := time.After(17 * time.Second)
